@@ -1,6 +1,6 @@
 #!/bin/bash
 # keep_seed.sh <prop> <k> : copy a confirmed seeded change into /verif/seeded/<prop>-<k>/
-P=$1; K=$2; SRC=/tmp/seed_out/$P; DST=/verif/seeded/$P-$K
+P=$1; K=$2; SRC=${OUTROOT:-/tmp/seed_out}/$P; DST=/verif/seeded/$P-${KOUT:-$K}
 [ -f $SRC/confirm$K.txt ] || { echo "not confirmed: $P $K"; exit 1; }
 grep -q "demo with change: exit 1" $SRC/confirm$K.txt && grep -q "demo without change: exit 0" $SRC/confirm$K.txt && grep -q "3 failed, 430 passed" $SRC/confirm$K.txt || { echo "confirmation incomplete: $P $K"; cat $SRC/confirm$K.txt; exit 1; }
 mkdir -p $DST; cp $SRC/patch$K.diff $DST/patch.diff; cp $SRC/demo$K.py $DST/demo.py; cp $SRC/notes$K.md $DST/notes.md
@@ -10,7 +10,7 @@ P,K,SRC,DST=sys.argv[1:]
 notes=open(SRC+'/notes%s.md'%K).read()
 meta=dict(property=P, breaks=P, source="independent sub-agent given only the property text and a scratch worktree",
           needs_to_manifest="see notes.md (written by the sub-agent)",
-          confirmed_by=["git apply in scratch worktree /tmp/wt/%s; rebuild if .pyx/.cpp changed"%P,
+          confirmed_by=["git apply in a scratch worktree of /repo; rebuild if .pyx/.cpp changed",
                         "full test suite serially: 430 passed, only the 3 known test_vcf_with_missing_headers failures",
                         "demo.py exits 1 with the change and 0 without it"],
           confirm_log=open(SRC+'/confirm%s.txt'%K).read()[-600:],
